@@ -91,3 +91,8 @@ Theorem C07_bbox_line_intersect_twin : forall x0 xs y0 ys sx sy ex ey,
   = py_bbox_line_intersect (vq_mat [x0 :: xs; y0 :: ys]) (V2 sx sy) (V2 ex ey).
 Proof. exact bbox_line_intersect_twin. Qed.
 Print Assumptions C07_bbox_line_intersect_twin.
+Theorem C07_newton_refine_solve_twin : forall (a b c d : val) x sx y sy,
+  f90_newton_refine_solve (VTup [VTup [a]; VTup [b]; VTup [c]; VTup [d]]) x sx y sy
+  = Gen.PyFnTriangleIntersection.py_newton_refine_solve (VTup [VTup [a]; VTup [b]; VTup [c]; VTup [d]]) x sx y sy.
+Proof. exact newton_refine_solve_twin. Qed.
+Print Assumptions C07_newton_refine_solve_twin.
